@@ -90,9 +90,16 @@ func c17Connect(c *vf.Case, ioc *sonic.IO) (*websocket.Stream, int, bool) {
 	go func() {
 		fd, _, err := rawpeer.Accept(lfd)
 		if err != nil {
-			ch <- res{-1, err}
+			syscall.Close(lfd) // refuse the queued connection: the client's handshake then fails instead of waiting
+			ch <- res{-1, fmt.Errorf("accept: %w", err)}
 			return
 		}
+		ok := false
+		defer func() {
+			if !ok {
+				rawpeer.Reset(fd)
+			}
+		}()
 		var req []byte
 		buf := make([]byte, 4096)
 		for !bytes.Contains(req, []byte("\r\n\r\n")) {
@@ -117,6 +124,7 @@ func c17Connect(c *vf.Case, ioc *sonic.IO) (*websocket.Stream, int, bool) {
 		resp := "HTTP/1.1 101 Switching Protocols\r\nUpgrade: websocket\r\nConnection: Upgrade\r\nSec-WebSocket-Accept: " + c18Accept(hr.Header.Get("Sec-WebSocket-Key")) + "\r\n\r\n"
 		_, _ = rawpeer.WriteSome(fd, []byte(resp))
 		_ = syscall.SetsockoptInt(fd, syscall.IPPROTO_TCP, syscall.TCP_NODELAY, 1) // no Nagle delays on the peer's small frames
+		ok = true
 		ch <- res{fd, nil}
 	}()
 	s, err := websocket.NewWebsocketStream(ioc, nil, websocket.RoleClient)
